@@ -69,9 +69,9 @@ def run(F, chk):
                         else "with a payload length that no longer flows through min(max_frame_size, window)"))
     # ---------------- R-C14-b ----------------------------------------------------
     rb = chk.rule("R-C14-b", "T5+T4", "outgoing streams behind the peer's MAX_CONCURRENT_STREAMS; closed writers of last_stream_id", floor=2)
-    ss = F.body(H2 + "::<Front>::start_stream")
+    ss = lib.flat(F, F.body(H2 + "::<Front>::start_stream"))
     rb.fn(ss.path)
-    ins = [bi for (b2, bi, c) in lib.field_mut_calls(F, H2, "streams") if b2.path == ss.path and c.endswith("::insert")]
+    ins = [bi for (bi, c) in lib.field_mut_calls_in(ss, H2, "streams") if c.endswith("::insert")]
     edges = []
     for sb, f, t, atom in guards.bool_switches(ss):
         if atom[0] != "cmp":
